@@ -116,6 +116,8 @@ def match(e, p, b=None):
         b = {}
     if p is ANY:
         return True
+    if e is None:
+        return False
     if isinstance(p, Bind):
         if not match(e, p.pat, b):
             return False
